@@ -460,6 +460,14 @@ func containsSym(v value) bool {
 
 // eqTerm is Go's == on comparable values as a Bool term.
 func (i *interpreter) eqTerm(t types.Type, x, y value) *Term {
+	return i.eqTermG(i.ps.tf.tt, t, x, y)
+}
+
+// eqTermG: guard is the condition under which this comparison is reached
+// (Go compares struct fields / array elements in order and stops at the
+// first difference); comparing uncomparable dynamic types is a run-time
+// panic exactly when the guard holds.
+func (i *interpreter) eqTermG(guard *Term, t types.Type, x, y value) *Term {
 	tf := i.ps.tf
 	switch x := x.(type) {
 	case bool, symBool:
@@ -491,7 +499,7 @@ func (i *interpreter) eqTerm(t types.Type, x, y value) *Term {
 			if f.Name() == "_" {
 				continue
 			}
-			r = tf.and(r, i.eqTerm(f.Type(), x[k], ys[k]))
+			r = tf.and(r, i.eqTermG(tf.and(guard, r), f.Type(), x[k], ys[k]))
 			if r.isFalse() {
 				return r
 			}
@@ -502,7 +510,7 @@ func (i *interpreter) eqTerm(t types.Type, x, y value) *Term {
 		et := t.Underlying().(*types.Array).Elem()
 		r := tf.tt
 		for k := range x {
-			r = tf.and(r, i.eqTerm(et, x[k], ya[k]))
+			r = tf.and(r, i.eqTermG(tf.and(guard, r), et, x[k], ya[k]))
 			if r.isFalse() {
 				return r
 			}
@@ -516,7 +524,13 @@ func (i *interpreter) eqTerm(t types.Type, x, y value) *Term {
 		if x.t == nil {
 			return tf.tt
 		}
-		return i.eqTerm(x.t, x.v, yi.v)
+		if !types.Comparable(x.t) {
+			if i.ps.decide(guard) {
+				panic(rtPanic("runtime error: comparing uncomparable type " + typeName(x.t)))
+			}
+			return tf.ff
+		}
+		return i.eqTermG(guard, x.t, x.v, yi.v)
 	case rtype:
 		return tf.boolc(types.Identical(x.t, y.(rtype).t))
 	}
